@@ -55,6 +55,9 @@ FDirect == {"direct"}
 FBatch == {"direct", "batch"}
 FBatchNoop == {"direct", "batch", "noop"}
 FHist == {"direct", "batch", "second", "failwrite"}
+FHistCk == {"direct", "batch", "second", "checkout", "failwrite"}
+FHistCkNoop == {"direct", "batch", "second", "checkout", "failwrite", "noop"}
+FCk == {"direct", "checkout"}
 FBatchFail == {"direct", "batch", "failwrite"}
 FFailPrune == {"direct", "failwrite", "failwritep", "noop"}
 FFaults == {"direct", "batch", "lose", "get"}
